@@ -1,5 +1,403 @@
-//! placeholder, filled in by the corresponding check
-pub fn main(_rest: &[String]) -> i32 {
-    eprintln!("not implemented");
-    2
+//! `picker <positions.ndjson> <out-base> [--seed S] [--contents K] [--loud L] [--files F]
+//!         [--max-positions N]`
+//!
+//! C10.  For every distinct position reachable in one step from the recorded positions the real
+//! `MovePicker` is run to exhaustion under adversarial table contents and the yielded stream is
+//! logged together with the configuration the picker saw (ND-JSON, one line per position,
+//! `runs` = one entry per table content).  Nothing is judged here: `Trace_MovePicker.tla`
+//! decides with the rule book whether each stream is a permutation of the legal moves.
+//!
+//! Position under test T: a recorded position P, or (mostly) P after one of its moves, so that
+//! `game.history.last()` names a previous move and the counter-move table is consulted.
+//! Table contents per run (seeded RNG):
+//!   hash move   none, or a move of the engine's legal list (the property's domain)
+//!   killers     written as a pair with hook H5 (`verif_set`) at a random ply 0..=254: legal quiet
+//!               moves, legal captures, queen-promotion pushes, moves that are legal only in a
+//!               sibling / grand-child position, arbitrary `Move` values, equal to each other or
+//!               to the hash move, or absent; decoy pairs at the neighbouring plies
+//!   counter     the same menu, stored for (side to move, previous move)
+//!   history     through the public `add_bonus_for` only: all zero, many ties, large distinct
+//!               values, some moves driven to the saturation value
+//! A run that has not ended after 400 yields is cut (`outcome: "cut"`); a panic is recorded
+//! (`outcome: "panic"`).
+use crate::chess::game::Game;
+use crate::chess::movegen::{generate_captures, generate_quiets, MovegenCache};
+use crate::chess::moves::{Move, MoveList};
+use crate::chess::piece::PromotionPieceKind;
+use crate::chess::square::Square;
+use crate::engine::options::EngineOptions;
+use crate::engine::search::move_picker::MovePicker;
+use crate::engine::search::time_control::TimeStrategy;
+use crate::engine::search::{PersistentState, SearchContext, SearchRestrictions, TimeControl};
+use crate::proj;
+use rand::prelude::*;
+use serde_json::{json, Map, Value};
+use std::collections::{HashMap, HashSet};
+use std::io::{BufRead, Write};
+use std::panic::{catch_unwind, AssertUnwindSafe};
+
+const CUT: usize = 400;
+const HISTORY_SATURATION: i32 = 999_999_999; // move_ordering::HISTORY_MAX_SCORE (private); values are read back
+
+fn pk(m: Option<Move>) -> i64 {
+    m.map_or(-1, proj::pack_move)
+}
+
+fn is_qpromo_push(m: Move) -> bool {
+    !m.is_capture() && m.promotion() == Some(PromotionPieceKind::Queen)
+}
+
+fn random_move(rng: &mut StdRng) -> Move {
+    let a = Square::from_index(rng.gen_range(0..64));
+    let mut b = Square::from_index(rng.gen_range(0..64));
+    if a.idx() == 0 && b.idx() == 0 {
+        b = Square::from_index(1); // the all-zero move does not exist (NonZeroU16)
+    }
+    let p = [PromotionPieceKind::Queen, PromotionPieceKind::Rook, PromotionPieceKind::Knight, PromotionPieceKind::Bishop]
+        [rng.gen_range(0..4)];
+    match rng.gen_range(0..6) {
+        0 => Move::capture(a, b),
+        1 => Move::quiet_promotion(a, b, p),
+        2 => Move::capture_promotion(a, b, p),
+        3 => Move::en_passant(a, b),
+        4 => Move::castles(a, b),
+        _ => Move::quiet(a, b),
+    }
+}
+
+struct Pools {
+    legal: Vec<Move>,
+    caps: Vec<Move>,   // generate_captures, generation order
+    quiets: Vec<Move>, // generate_quiets, generation order
+    true_caps: Vec<Move>,
+    qpush: Vec<Move>,
+    foreign: Vec<Move>, // legal in a sibling or grand-child position, not here
+}
+
+fn pick<T: Copy>(v: &[T], rng: &mut StdRng) -> Option<T> {
+    if v.is_empty() {
+        None
+    } else {
+        Some(v[rng.gen_range(0..v.len())])
+    }
+}
+
+/// One table entry from the adversarial menu. `others` are the entries chosen so far.
+fn menu(p: &Pools, others: &[Option<Move>], rng: &mut StdRng) -> Option<Move> {
+    let r = rng.gen_range(0..100);
+    let some: Vec<Move> = others.iter().flatten().copied().collect();
+    let c = if r < 12 {
+        None
+    } else if r < 42 {
+        pick(&p.quiets, rng)
+    } else if r < 52 {
+        pick(&p.true_caps, rng)
+    } else if r < 58 {
+        pick(&p.qpush, rng).or_else(|| pick(&p.caps, rng))
+    } else if r < 74 {
+        pick(&p.foreign, rng).or_else(|| Some(random_move(rng)))
+    } else if r < 80 {
+        Some(random_move(rng))
+    } else {
+        pick(&some, rng).or_else(|| pick(&p.quiets, rng))
+    };
+    c
+}
+
+/// Drives a history slot to `target` using only `add_bonus_for` (depth^2 per call, saturating).
+fn raise_history(ctx: &mut SearchContext<'_>, game: &Game, mv: Move, target: i32) {
+    let mut rem = target - ctx.history_table.get(game.player, mv);
+    while rem > 0 {
+        let d = (f64::from(rem).sqrt().floor() as i32).clamp(1, 255);
+        ctx.history_table.add_bonus_for(game.player, mv, d as u8);
+        rem -= d * d;
+    }
+}
+
+struct Args {
+    seed: u64,
+    contents: usize,
+    loud: usize,
+    files: usize,
+    max_positions: usize,
+}
+
+pub fn main(rest: &[String]) -> i32 {
+    if rest.len() < 2 {
+        eprintln!("usage: picker <positions.ndjson> <out-base> [--seed S] [--contents K] [--loud L] [--files F] [--max-positions N]");
+        return 2;
+    }
+    let mut a = Args { seed: 1, contents: 6, loud: 1, files: 1, max_positions: usize::MAX };
+    let mut i = 2;
+    while i < rest.len() {
+        let v = rest.get(i + 1).cloned().unwrap_or_default();
+        match rest[i].as_str() {
+            "--seed" => a.seed = v.parse().unwrap(),
+            "--contents" => a.contents = v.parse().unwrap(),
+            "--loud" => a.loud = v.parse().unwrap(),
+            "--files" => a.files = v.parse().unwrap(),
+            "--max-positions" => a.max_positions = v.parse().unwrap(),
+            x => {
+                eprintln!("unknown arg {x}");
+                return 2;
+            }
+        }
+        i += 2;
+    }
+    let mut rng = StdRng::seed_from_u64(a.seed.wrapping_mul(7_654_321).wrapping_add(10));
+
+    // ---- positions under test -------------------------------------------------------------
+    let f = std::io::BufReader::new(std::fs::File::open(&rest[0]).unwrap());
+    let mut seen_src: HashSet<String> = HashSet::new();
+    let mut seen: HashSet<String> = HashSet::new();
+    let mut targets: Vec<(Game, Vec<Move>)> = Vec::new(); // position, foreign pool
+    for line in f.lines() {
+        let line = line.unwrap();
+        if line.trim().is_empty() {
+            continue;
+        }
+        if targets.len() >= a.max_positions {
+            break;
+        }
+        let r: Value = serde_json::from_str(&line).unwrap();
+        let parent = proj::game_from_fields(&r);
+        if !seen_src.insert(parent.to_fen()) {
+            continue;
+        }
+        let pm = parent.moves();
+        let mut t = parent.clone();
+        let mut foreign: Vec<Move> = Vec::new();
+        if !pm.is_empty() && rng.gen_range(0..100) < 80 {
+            let m = pm[rng.gen_range(0..pm.len())];
+            t.make_move(m);
+            // moves of sibling positions (same ply, same side to move)
+            for _ in 0..2 {
+                let m2 = pm[rng.gen_range(0..pm.len())];
+                if m2 != m {
+                    let mut s = parent.clone();
+                    s.make_move(m2);
+                    foreign.extend(s.moves().iter().copied());
+                }
+            }
+        }
+        // moves of a grand-child (two plies on: same side to move)
+        let tm = t.moves();
+        if !tm.is_empty() {
+            let mut g = t.clone();
+            g.make_move(tm[rng.gen_range(0..tm.len())]);
+            let gm = g.moves();
+            if !gm.is_empty() {
+                g.make_move(gm[rng.gen_range(0..gm.len())]);
+                foreign.extend(g.moves().iter().copied());
+            }
+        }
+        if !seen.insert(t.to_fen()) {
+            continue;
+        }
+        let legal: HashSet<i64> = tm.iter().map(|m| proj::pack_move(*m)).collect();
+        foreign.retain(|m| !legal.contains(&proj::pack_move(*m)));
+        targets.push((t, foreign));
+    }
+
+    // ---- engine context -------------------------------------------------------------------
+    let mut persistent_state = PersistentState::new(1);
+    let options = EngineOptions::default();
+    let restrictions = SearchRestrictions::default();
+    let start = Game::new();
+    let (mut time_strategy, _control) = TimeStrategy::new(&start, &TimeControl::Infinite, &options);
+
+    let mut outs: Vec<std::io::BufWriter<std::fs::File>> = (0..a.files)
+        .map(|k| {
+            let p = if a.files == 1 { rest[1].clone() } else { format!("{}.{}", rest[1], k) };
+            std::io::BufWriter::new(std::fs::File::create(p).unwrap())
+        })
+        .collect();
+
+    let mut tally: HashMap<&'static str, u64> = HashMap::new();
+    let mut bump = |k: &'static str, c: bool| {
+        if c {
+            *tally.entry(k).or_insert(0) += 1;
+        }
+    };
+    let (mut nruns, mut nyield, mut nnontrivial) = (0u64, 0u64, 0u64);
+    let mut samples: Vec<Value> = Vec::new();
+    let mut last_sampled = usize::MAX;
+
+    for (ti, (game, foreign)) in targets.iter().enumerate() {
+        // the two generated lists, in generation order (what the configuration event records)
+        let mut caps = MoveList::new();
+        let mut cache = MovegenCache::new();
+        generate_captures(game, &mut caps, &mut cache);
+        let mut quiets = MoveList::new();
+        generate_quiets(game, &mut quiets, &cache);
+        let legal: Vec<Move> = game.moves().iter().copied().collect();
+        let pools = Pools {
+            legal: legal.clone(),
+            caps: caps.iter().copied().collect(),
+            quiets: quiets.iter().copied().collect(),
+            true_caps: caps.iter().copied().filter(|m| m.is_capture()).collect(),
+            qpush: caps.iter().copied().filter(|m| is_qpromo_push(*m)).collect(),
+            foreign: foreign.clone(),
+        };
+        let prev = game.history.last().and_then(|h| h.mv);
+        let capset: HashSet<i64> = pools.caps.iter().map(|m| proj::pack_move(*m)).collect();
+        let quietset: HashSet<i64> = pools.quiets.iter().map(|m| proj::pack_move(*m)).collect();
+
+        let mut runs: Vec<Value> = Vec::new();
+        for ri in 0..(a.contents + a.loud) {
+            let loud = ri >= a.contents;
+            let mut ctx = SearchContext::new(&mut persistent_state, &mut time_strategy, &options, &restrictions);
+            ctx.history_table.reset();
+
+            // ply, with the ends of the table over-represented
+            let ply: u8 = match rng.gen_range(0..10) {
+                0 => 0,
+                1 => 254,
+                2 => 1,
+                3 => 253,
+                _ => rng.gen_range(0..=254),
+            };
+            // hash move: legal or none
+            let hash: Option<Move> = if loud || rng.gen_range(0..100) < 30 {
+                None
+            } else {
+                match rng.gen_range(0..4) {
+                    0 => pick(&pools.caps, &mut rng).or_else(|| pick(&pools.legal, &mut rng)),
+                    1 => pick(&pools.quiets, &mut rng).or_else(|| pick(&pools.legal, &mut rng)),
+                    _ => pick(&pools.legal, &mut rng),
+                }
+            };
+            let k1 = menu(&pools, &[hash], &mut rng);
+            let k2 = menu(&pools, &[hash, k1, k1], &mut rng);
+            let cm = menu(&pools, &[hash, k1, k2], &mut rng);
+            ctx.killer_moves.verif_set(ply, k1, k2);
+            // decoys at the neighbouring plies: a picker reading the wrong ply shows up as drift
+            if ply > 0 {
+                ctx.killer_moves.verif_set(ply - 1, pick(&pools.quiets, &mut rng), pick(&pools.quiets, &mut rng));
+            }
+            if ply < 254 {
+                ctx.killer_moves.verif_set(ply + 1, pick(&pools.quiets, &mut rng), pick(&pools.quiets, &mut rng));
+            }
+            if let (Some(p), Some(c)) = (prev, cm) {
+                ctx.countermove_table.set(game.player, p, c);
+            }
+            // history
+            let mode = rng.gen_range(0..10);
+            for q in pools.quiets.iter() {
+                let target: i32 = match mode {
+                    0 => 0,
+                    1..=3 => rng.gen_range(0..4),
+                    4..=6 => rng.gen_range(0..2_000_000),
+                    _ => match rng.gen_range(0..8) {
+                        0 => HISTORY_SATURATION,
+                        1 => HISTORY_SATURATION + 70_000, // beyond the cap: must saturate
+                        2 => HISTORY_SATURATION - 1,
+                        3 => 0,
+                        _ => rng.gen_range(0..1000),
+                    },
+                };
+                raise_history(&mut ctx, game, *q, target);
+            }
+            // also some history on moves that are not quiet here (must be irrelevant)
+            if let Some(c) = pick(&pools.true_caps, &mut rng) {
+                if mode >= 4 {
+                    raise_history(&mut ctx, game, c, 5_000_000);
+                }
+            }
+
+            // the configuration as the picker will see it
+            let k1_eff = ctx.killer_moves.get_0(ply);
+            let k2_eff = ctx.killer_moves.get_1(ply);
+            let cm_eff = prev.and_then(|p| ctx.countermove_table.get(game.player, p));
+            let hist: Vec<i32> = pools.quiets.iter().map(|q| ctx.history_table.get(game.player, *q)).collect();
+
+            let ctx_ref = &ctx;
+            let res = catch_unwind(AssertUnwindSafe(|| {
+                let mut picker = if loud { MovePicker::new_loud() } else { MovePicker::new(hash) };
+                let mut out: Vec<i64> = Vec::new();
+                let mut cut = false;
+                while let Some(m) = picker.next(game, ctx_ref, ply) {
+                    out.push(proj::pack_move(m));
+                    if out.len() >= CUT {
+                        cut = true;
+                        break;
+                    }
+                }
+                (out, cut)
+            }));
+            let (out, outcome) = match res {
+                Ok((o, false)) => (o, "ok"),
+                Ok((o, true)) => (o, "cut"),
+                Err(_) => (Vec::new(), "panic"),
+            };
+            nruns += 1;
+            nyield += out.len() as u64;
+
+            // statistics about how the table entries interact (not a judgement)
+            let (h, a1, a2, c) = (pk(hash), pk(k1_eff), pk(k2_eff), pk(cm_eff));
+            let listed = |x: i64| capset.contains(&x) || quietset.contains(&x);
+            let mut nt = false;
+            if !loud {
+                let t = [
+                    ("hash_is_capture_list_entry", h >= 0 && capset.contains(&h)),
+                    ("hash_is_quiet", h >= 0 && quietset.contains(&h)),
+                    ("killer_equals_hash", h >= 0 && (a1 == h || a2 == h)),
+                    ("counter_equals_hash", h >= 0 && c == h),
+                    ("killers_equal", a1 >= 0 && a1 == a2),
+                    ("counter_equals_killer", c >= 0 && (c == a1 || c == a2)),
+                    ("killer_is_capture_list_entry", capset.contains(&a1) || capset.contains(&a2)),
+                    ("counter_is_capture_list_entry", capset.contains(&c)),
+                    ("killer_not_legal_here", (a1 >= 0 && !listed(a1)) || (a2 >= 0 && !listed(a2))),
+                    ("counter_not_legal_here", c >= 0 && !listed(c)),
+                    ("killer_is_legal_quiet", quietset.contains(&a1) || quietset.contains(&a2)),
+                    ("counter_is_legal_quiet", quietset.contains(&c)),
+                    ("history_ties", {
+                        let mut s = hist.clone();
+                        s.sort_unstable();
+                        s.windows(2).any(|w| w[0] == w[1])
+                    }),
+                    ("history_saturated", hist.iter().any(|x| *x == HISTORY_SATURATION)),
+                    ("ply_edge", ply == 0 || ply == 254),
+                ];
+                for (k, v) in t.iter() {
+                    bump(k, *v);
+                }
+                // non-trivial: a remembered entry is present and collides with another entry, is a
+                // capture-list entry, or is not legal here
+                nt = t[2].1 || t[3].1 || t[4].1 || t[5].1 || t[6].1 || t[7].1 || t[8].1 || t[9].1;
+            }
+            bump("loud", loud);
+            bump("no_previous_move", prev.is_none());
+            bump("outcome_not_ok", outcome != "ok");
+            if nt {
+                nnontrivial += 1;
+            }
+            if samples.len() < 3 && nt && ti % 7 == 3 && last_sampled != ti {
+                last_sampled = ti;
+                samples.push(json!({"fen": game.to_fen(), "ply": ply, "hash": h, "k1": a1, "k2": a2, "cm": c, "yielded": out.len()}));
+            }
+            runs.push(json!({
+                "loud": if loud { 1 } else { 0 }, "ply": ply, "hash": h, "k1": a1, "k2": a2, "cm": c,
+                "hist": hist, "outcome": outcome, "out": out,
+            }));
+        }
+        let mut ev: Map<String, Value> = proj::position(game);
+        ev.insert("fen".into(), json!(game.to_fen()));
+        ev.insert("prev".into(), json!(pk(prev)));
+        ev.insert("caps".into(), json!(pools.caps.iter().map(|m| proj::pack_move(*m)).collect::<Vec<i64>>()));
+        ev.insert("quiets".into(), json!(pools.quiets.iter().map(|m| proj::pack_move(*m)).collect::<Vec<i64>>()));
+        ev.insert("runs".into(), json!(runs));
+        let w = &mut outs[ti % a.files];
+        writeln!(w, "{}", Value::Object(ev)).unwrap();
+    }
+    for w in outs.iter_mut() {
+        w.flush().unwrap();
+    }
+    let tally: Map<String, Value> = tally.iter().map(|(k, v)| (k.to_string(), json!(v))).collect();
+    println!(
+        "{}",
+        json!({"positions": targets.len(), "runs": nruns, "yields": nyield, "nontrivial": nnontrivial,
+               "tally": tally, "samples": samples})
+    );
+    0
 }
